@@ -284,7 +284,9 @@ impl<'a> Digest<'a> {
                 }
                 Ev::NInv { from, act } => disps.push(Disp {
                     act: *act,
-                    via: None,
+                    // a forwarding subscriber calls the store's own (inherent) dispatch method;
+                    // thunks and middlewares use the dispatcher handle they were given
+                    via: if matches!(from, Nest::Sub(..)) { Some(Via::Inherent) } else { None },
                     src: Src::Nest(from.clone()),
                     inv: p,
                     ret: None,
@@ -329,7 +331,16 @@ impl<'a> Digest<'a> {
                 }
                 Ev::SelCb { act, .. } => (Some(scn.actions[*act as usize].store), Some(*act)),
                 Ev::MwErr { comp } => (comp_store.get(comp).copied(), None),
-                Ev::SelIn { sub, .. } => (sub_store(&stores, *sub), None),
+                // the state a selector is shown names the action that produced it, hence the store
+                // (a selector object may be registered on several stores)
+                Ev::SelIn { sub, st } => (
+                    stores
+                        .iter()
+                        .position(|sd| sd.red_tid == Some(r.tid))
+                        .or_else(|| scn.actions.get(st.last as usize).map(|a| a.store))
+                        .or_else(|| sub_store(&stores, *sub)),
+                    None,
+                ),
                 _ => (None, None),
             };
             let Some(s) = store else { continue };
